@@ -67,7 +67,8 @@ type PackOpts struct {
 	MaxSamples   int  // per fragment per track
 	Foreign      bool // allow foreign boxes in and between fragments
 	NALVideo     bool // video payloads are length-prefixed NAL units
-	NoMeta       bool // never use metadata-only / interval modes (payload always inside the fragment object)
+	NoMeta       bool // never use metadata-only mode (payload written separately; Size() then exceeds what Encode writes, by design)
+	NoInterval   bool // never use AddSampleInterval (data parts)
 	NoEmptyTrack bool
 	AudioOnly    bool
 	BigSamples   bool
@@ -254,13 +255,14 @@ func Package(r *sim.Run, o PackOpts) (*Production, error) {
 			}
 			seq++
 			mode := "full"
+			modes := []string{"full"}
 			if !o.NoMeta {
-				if multi {
-					mode = []string{"full", "meta"}[t.Draw(2)]
-				} else {
-					mode = []string{"full", "meta", "interval"}[t.Draw(3)]
-				}
+				modes = append(modes, "meta")
 			}
+			if !multi && !o.NoInterval {
+				modes = append(modes, "interval")
+			}
+			mode = modes[t.Draw(len(modes))]
 			fr.Mode = mode
 			if multi {
 				fr.Mode += "/multi"
